@@ -621,6 +621,22 @@ func c15Bus(c *Check, P string, fn *ssa.Function, genField string, hooks []strin
 			}
 		}
 	}
+	// the bus fails only when one of its steps failed: every error it returns is (a wrap of) a step's error
+	for _, f := range fns {
+		var srcs []ErrSource
+		for _, cl := range CallsIn(f) {
+			if _, isCall := cl.(*ssa.Call); !isCall {
+				continue
+			}
+			sig := cl.Common().Signature()
+			if n := sig.Results().Len(); n > 0 && IsErrorType(sig.Results().At(n-1).Type()) {
+				if cal := CalleeFn(cl.Common()); cal == nil || cal.Pkg == f.Pkg || IsCallTo(cl, nPublish) {
+					srcs = append(srcs, ErrSource{cl, n - 1})
+				}
+			}
+		}
+		ErrorsOnlyFrom(c, P+".O5", "BUS-FAILS-ONLY-WHEN-A-STEP-FAILED", f, srcs, nil, "sending fails only when marshalling, naming the topic, a hook or the Publish itself failed (no other condition refuses a command or event)")
+	}
 	// the caller's context travels with the message
 	for _, m := range marshals {
 		f := m.Parent()
